@@ -79,7 +79,7 @@ def get_widths(seq: Iterable[object]) -> Dict[Union[str, int], float]:
                 (char1, char2, w) = r
                 if isinstance(char1, int) and isinstance(char2, int):
                     # CIDs are at most 65535; do not loop over an absurd range
-                    for i in range(char1, min(char2, MAX_CID) + 1):
+                    for i in range(max(char1, 0), min(char2, MAX_CID) + 1):
                         widths[i] = w
                 else:
                     log.warning(
@@ -114,7 +114,7 @@ def get_widths2(seq: Iterable[object]) -> Dict[int, Tuple[float, Point]]:
             if len(r) == 5:
                 (char1, char2, w, vx, vy) = r
                 if isinstance(char1, int) and isinstance(char2, int):
-                    for i in range(char1, min(char2, MAX_CID) + 1):
+                    for i in range(max(char1, 0), min(char2, MAX_CID) + 1):
                         widths[i] = (w, (vx, vy))
                 else:
                     log.warning(
